@@ -165,6 +165,7 @@ pub fn oracle(sc: &Scenario, obs: &mut Obs) -> CaseResult {
     for (suite, name) in [(0u8, "suite:TLS_AES_128_GCM_SHA256"), (1, "suite:TLS_AES_256_GCM_SHA384"), (2, "suite:TLS_CHACHA20_POLY1305_SHA256")] {
         obs.class_if(out.recs.iter().any(|r| matches!(r.ev, crate::rec::Ev::KeyUpdate { space: crate::rec::Space::App, suite: x, .. } if x == suite)), name);
     }
+    obs.class_if(out.recs.iter().any(|r| matches!(r.ev, crate::rec::Ev::KeyUpdate { space: crate::rec::Space::App, generation: g, .. } if g >= 1)), "key-update-during-attack");
     obs.class_if(s.injected_after_handshake > 0, "injected-into-established-connection");
     obs.class_if(s.replays_of_one_rtt > 0, "replay-of-1rtt-packet");
     obs.class_if(sc.attacks.iter().any(|a| matches!(a.kind, AttackKind::Splice { .. })), "splice");
@@ -210,6 +211,11 @@ pub fn scenario() -> impl Strategy<Value = Scenario> {
         sc.attacks = attacks;
         // half of the cases run on TLS_AES_256_GCM_SHA384 (server policy), the others on TLS_AES_128_GCM_SHA256
         sc.tls_aes256 = sc.seed & 1 == 1;
+        // a third of the cases update their 1-RTT keys every 24..220 packets (hook aws_s2n_quic_verif), so that replays and forgeries
+        // also meet connections that are in the middle of a key update (old keys still retained, next keys already derived)
+        if (sc.seed >> 1) % 3 == 0 {
+            sc.key_update_after = Some(24 + ((sc.seed >> 8) % 197) as u32);
+        }
         sc.net.delay_us = sc.net.delay_us.min(30_000);
         sc.net.max_udp_payload = 65_000;
         for c in &mut sc.clients {
